@@ -8,12 +8,14 @@ Extraction Language OCaml.
 Extraction "c17_model.ml"
   c17_ipower c17_factorial c17_binomial c17_isign c17_inrange c17_fit
   c17_eq c17_ne c17_gt c17_lt c17_ge c17_le c17_veq c17_vne c17_vgt c17_vlt c17_vge c17_vle c17_flt c17_fgt
-  c17_default_cstyle c17_default_rstyle c17_default_eps
+  c17_default_cstyle c17_default_rstyle c17_default_eps c17_ops_default c17_ops_set_eps
+  c17_ops_eq c17_ops_ne c17_ops_gt c17_ops_lt c17_ops_ge c17_ops_le c17_ops_round c17_ops_trunc
+  c17_vcisnan c17_vcisinf c17_vcisfinite c17_visunordered1 c17_isign_src c17_binomial_nn_src
   c17_round c17_trunc c17_binomial_fix c17_round_fix c17_trunc_fix c17_fpower c17_fsign
   c17_isnan c17_isinf c17_isfinite c17_isunordered c17_visnan c17_visinf c17_visfinite
   c17_cisnan c17_cisinf c17_cisfinite
   c17_of_bits c17_to_bits c17_of_Z
-  c17_cmp_laws c17_spec_eq_exact c17_eq_verdict c17_spec_veq c17_spec_trunc_ok c17_spec_round_ok c17_spec_trunc_ideal c17_spec_round_ideal c17_to_dy
+  c17_cmp_laws c17_spec_eq_exact c17_eq_verdict c17_spec_veq c17_spec_trunc_ok c17_spec_round_ok c17_spec_trunc_ideal c17_spec_round_ideal c17_spec_default_eps_ok c17_to_dy
   c17_dy_floor c17_dy_mul c17_dy_sub c17_dy_abs c17_dy_leb c17_dy_eqb c17_dy_of_Z c17_dy_pow2
   c17_spec_power c17_spec_factorial c17_spec_binomial_fast c17_spec_sign c17_spec_int_ok
   c17_spec_any_nan c17_spec_any_inf c17_spec_all_finite
